@@ -605,7 +605,8 @@ class HyperParameters:
             if self.is_active(hp):
                 if hp.name not in self.values:
                     self.values[hp.name] = hp.random_sample()
-            else:
+            elif not self.is_active(hp.name):
+                # Another hyperparameter with the same name may be active.
                 self.values.pop(hp.name, None)
 
     @classmethod
